@@ -90,7 +90,7 @@ static Trace* g_cur = 0;
 static void on_crash(int sig) {
   if (g_cur) { g_cur->add("CRASH", to_string(sig)); g_cur->emit(); }
   else printf("buf:outside-a-history heap 0 1 0 0 CRASH => %d\n", sig);   // e.g. in the destructor of the buffer
-  fflush(stdout); _exit(0);
+  fflush(stdout); VH_EXIT(0);
 }
 static string ids_tok(vector<int> v) {
   sort(v.begin(), v.end());
